@@ -361,6 +361,7 @@ pub fn exec_op(ctx: &Arc<Ctx>, op: &Op, caller: usize, nested: bool, local: &mut
             return;
         }
         Op::ChainClose(_, _) => { return; }
+        Op::WaitPending(n) => { while ctx.pending.load(SeqCst) > *n { rt::thread::yield_now(); } return; }
         Op::PanicDrop(q) => {
             // Desync::drop on a panicking thread takes the sync_no_panic path: it must still wait for whatever runs on the queue
             desync::verif::log("api", "DROPOBJ", *q, String::new());
